@@ -132,9 +132,12 @@ def explore_config(shard):
         p.violation(dict(oracle="lifecycle", field=field), dict(kind="lifecycle", cfg=cfg, hist=[list(o) for o in hist]),
                     f"{cfg}: [{'; '.join(opname(cfg, o) for o in hist)}]: {msg}", size=(len(hist), tuple(map(str, hist))))
 
+    timeouts = 0
     while frontier:
         nxt = []
         for hist, prog, steps, nloads in frontier:
+            if timeouts >= 4:
+                break
             base = replay_history(cfg, hist)
             started = base.has_started
             try:
@@ -158,6 +161,11 @@ def explore_config(shard):
                 p.traces += 1
                 if kind == "timeout":
                     viol("termination", h2, f"{opname(cfg, op)} did not return within 10 s")
+                    timeouts += 1
+                    if timeouts >= 4:
+                        # a tree on which calls stop returning: the violations are recorded, the rest of this configuration is not explored
+                        frontier, nxt = [], []
+                        break
                     continue
                 if kind == "error":
                     viol("unexpected-exception", h2, f"{opname(cfg, op)} raised {type(val).__name__}: {str(val)[:100]}")
@@ -237,7 +245,40 @@ def explore_config(shard):
     return p
 
 
+def fresh_probe(cfg, hist):
+    """Runs in a pristine interpreter (vf.engine.fresh): the history on a new simulation; returns the outcome of every call and
+    what can be observed afterwards."""
+    sim = CONFIGS[base_cfg(cfg)]()
+    outcomes = []
+    for op in hist:
+        kind, _v = apply(sim, cfg, tuple(op))
+        outcomes.append(kind)
+    obs, started = insp.observables(sim)
+    return {"last_outcome": outcomes[-1] if outcomes else None, "observations": [[n, repr(c)[:2000]] for n, c in obs], "has_started": started}
+
+
+def fresh_items():
+    """'The same load on a fresh simulation' must also mean a fresh PROCESS: a rejected load may leave something behind at class
+    or module level, which the reference simulation of an in-process comparison would see as well. Pairs in separate
+    interpreters: [load Y; run] against [load F (rejected); load Y; run] for every rejected F and every Y."""
+    out = []
+    for cfg in ("single", "toy"):
+        P = programs(cfg)
+        fails = [i for i, (n_, _t) in enumerate(P) if n_.startswith("parse-fail")]
+        for f in fails:
+            for y, (yname, _t) in enumerate(P):
+                if yname in NONTERMINATING:
+                    continue
+                tail = [["load", y], ["run"]]
+                out.append(("reload-in-a-fresh-process", f"{cfg}: load({P[f][0]}); load({yname}); run() vs. load({yname}); run() in a pristine interpreter",
+                            ["call", "vf.checks.c13", "fresh_probe", [cfg, tail]], ["call", "vf.checks.c13", "fresh_probe", [cfg, [["load", f]] + tail]]))
+    return out
+
+
 def replay(case):
+    if case.get("kind") == "fresh-pair":
+        from vf.checks import freshcmp
+        return freshcmp.replay(case)
     cfg = case["cfg"]
     hist = [tuple(o) for o in case["hist"]]
     # re-run the exploration of this configuration restricted to the failing history's prefixes
@@ -268,3 +309,10 @@ def run(ctx):
     part = pmap(explore_config, [(cfg, max_loads) for cfg in cfgs])
     ctx.space("lifecycle-bfs", part, t0, configurations=cfgs, max_loads=max_loads, closed=True)
     ctx.require("reload", "failed-load", "runtime-fault", "call-after-done", "run")
+    from vf.checks import freshcmp
+    t0 = time.time()
+    items = fresh_items()
+    part = pmap(freshcmp.pair_shard, [items[i::32] for i in range(32) if items[i::32]])
+    ctx.space("reload-after-a-rejected-load-in-fresh-interpreters", part, t0, pairs=len(items),
+              note="each history in its own interpreter: what a rejected load leaves at class / module level cannot be shared with the reference")
+    ctx.require("fresh-interpreter-differential")
